@@ -84,7 +84,7 @@ class Check:
         return key
 
     # ------------------------------------------------------------------ exploring
-    def explore(self, fkey, run, assumptions=(), max_paths=400):
+    def explore(self, fkey, run, assumptions=(), max_paths=400, only=None):
         """all paths of `run`; repo functions executed are recorded as inlined callees"""
         seen = set()
         repo_prefix = os.path.join(REPO, "coxeter")
@@ -97,7 +97,7 @@ class Check:
         old = sys.getprofile()
         sys.setprofile(prof)
         try:
-            res = paths.explore(run, assumptions=assumptions, max_paths=max_paths, catch=EXC_OF_CODE)
+            res = paths.explore(run, assumptions=assumptions, max_paths=max_paths, catch=EXC_OF_CODE, only=only)
         finally:
             sys.setprofile(old)
         self.inlined |= seen
@@ -217,6 +217,93 @@ class Check:
                        "reproduced_on_real_code": reproduced, "replay": _jsonable(info),
                        "repo": REPO}, f, indent=1)
         self.violations.append((o, path, reproduced))
+
+    # ------------------------------------------------------------------ parallel sections
+    def run_parallel(self, tasks, max_workers=None):
+        """tasks: list of (label, callable(chk)).  Each runs in a forked child on a copy of this Check and
+        its obligations / evidence pieces are merged back in task order (16 cores are available)."""
+        import pickle
+        import select
+        max_workers = max_workers or int(os.environ.get("PYVC_JOBS", "0") or 0) or min(14, os.cpu_count() or 1)
+        if max_workers <= 1 or len(tasks) <= 1 or os.environ.get("PYVC_SERIAL"):
+            for _, fn in tasks:
+                fn(self)
+            return
+        results = {}
+        pending = list(enumerate(tasks))
+        running = {}       # pid -> (index, read fd, buffer)
+
+        def launch(idx, label, fn):
+            r, w = os.pipe()
+            sys.stdout.flush()
+            pid = os.fork()
+            if pid == 0:
+                os.close(r)
+                code = 0
+                try:
+                    base = {k: len(getattr(self, k)) for k in ("obls", "violations", "known_hits", "errors", "canaries",
+                                                               "bounded", "notes", "out_of_reach", "assumed", "trusted")}
+                    try:
+                        fn(self)
+                    except paths.OutOfReach as e:
+                        self.errors.append(f"[{label}] verified code left the supported subset: {e}")
+                    except Exception as e:  # noqa: BLE001
+                        self.errors.append(f"[{label}] checker crashed: {type(e).__name__}: {e}\n" + traceback.format_exc()[-1500:])
+                    for ob in self.obls:
+                        ob.replay = None
+                    out = {k: getattr(self, k)[n:] for k, n in base.items()}
+                    out["known_hits"] = [(ob, k) for ob, k in out["known_hits"]]
+                    out["functions"] = self.functions
+                    out["inlined"] = self.inlined
+                    out["ext_used"] = list(externals.USED)
+                    data = pickle.dumps(out)
+                except BaseException as e:  # noqa: BLE001
+                    data = pickle.dumps({"fatal": f"[{label}] {type(e).__name__}: {e}"})
+                    code = 1
+                with os.fdopen(w, "wb") as f:
+                    f.write(data)
+                os._exit(code)
+            os.close(w)
+            running[pid] = (idx, r, label)
+
+        while pending or running:
+            while pending and len(running) < max_workers:
+                idx, (label, fn) = pending.pop(0)
+                launch(idx, label, fn)
+            # read from any finished child
+            fds = {r: pid for pid, (_, r, _) in running.items()}
+            ready, _, _ = select.select(list(fds), [], [], 1.0)
+            for r in ready:
+                pid = fds[r]
+                idx, _, label = running.pop(pid)
+                chunks = []
+                with os.fdopen(r, "rb") as f:
+                    chunks.append(f.read())
+                os.waitpid(pid, 0)
+                try:
+                    results[idx] = pickle.loads(b"".join(chunks))
+                except Exception as e:  # noqa: BLE001
+                    results[idx] = {"fatal": f"[{label}] child returned no result ({e})"}
+        for idx in sorted(results):
+            res = results[idx]
+            if "fatal" in res:
+                self.errors.append(res["fatal"])
+                continue
+            for k in ("obls", "violations", "known_hits", "errors", "canaries", "bounded", "notes", "out_of_reach"):
+                getattr(self, k).extend(res[k])
+            for k in ("assumed", "trusted"):
+                for x in res[k]:
+                    if x not in getattr(self, k):
+                        getattr(self, k).append(x)
+            for fk, f in res["functions"].items():
+                if fk in self.functions:
+                    self.functions[fk]["paths"] = max(self.functions[fk]["paths"], f["paths"])
+                else:
+                    self.functions[fk] = f
+            self.inlined |= res["inlined"]
+            for x in res["ext_used"]:
+                if x not in externals.USED:
+                    externals.USED.append(x)
 
     # ------------------------------------------------------------------ finishing
     def finish(self, explanation=""):
